@@ -247,6 +247,20 @@ func SimC13(c *CheckCtx, i int, r *Rng) error {
 			c.Env.Stats.Add("probe/cgo-world", 1)
 		}
 	}
+	if i%8 == 5 {
+		// a second module joined by a replace directive (or a workspace): its packages are loaded from a
+		// directory that is not below the main module's path prefix
+		nMain := len(m.Pkgs)
+		addSubModule(r, cfg, m)
+		m.Workspace = r.P(0.3)
+		if (i/8)%2 == 1 {
+			m.Sub.Path = m.ModPath + "/" + m.Sub.Dir
+		}
+		pi := r.Intn(nMain)
+		m.Pkgs[pi].Imports = append(m.Pkgs[pi].Imports, nMain, nMain+1)
+		eps, args.Entrypoint = all, spell(r, m, all)
+		c.Env.Stats.Add("probe/two-module-world", 1)
+	}
 	sc := &Scenario{Kind: "universe", Module: m, Base: base, LinkedRoot: i%4 == 2}
 	for _, s := range []string{"asc", "desc"} {
 		sc.Variants = append(sc.Variants, Variant{Name: "sched:" + s, Ops: []Op{{Kind: "run", Run: &RunOp{Args: args, Sched: schedOf(s, 0)}}}})
